@@ -11,7 +11,7 @@ use crate::oracle::*;
 pub const META: PropMeta = PropMeta {
     id: "C36",
     quick_runs: 60_000,
-    thorough_runs: 60_000_000,
+    thorough_runs: 40_000_000,
     rule: "end to end: each run picks a corpus slice program (batch of a total/unordered/keyed stream, batch+snapshot+state, batch+keyed snapshot, two batches, top-level assume_ordering), draws a workload from the run seed (<=6 uniquely numbered items per input over <=3 keys, split into send steps with awaits in between) and 4096 decision bytes, and runs one instance of the compiled simulator through CompiledSim::fuzz_repro. Distinct = distinct hash of (program, decision log); non-trivial = at least one item flowed AND the realised schedule differs from the all-at-once schedule (more than one tick/observation, or an await was served before everything was sent).",
     time_unit: "scheduled ticks + observations",
     real: &[
